@@ -19,6 +19,7 @@ UNITS_OF = {
     "C17": ["string"],
     "C08": ["format"],
     "C18": ["owner"],
+    "C19": ["envdl"],
 }
 
 
